@@ -27,7 +27,8 @@ def bases():
     # C03: rank / method / ignore, parameter order inside one trait, both carriers
     I = p_c03
     for k, (fl, r, mode) in enumerate([(['p', 'm', 'i'], [7, -3, None], 'both_ord'), (['m', 'p', 'p'], [0, None, -3], 'pord'),
-                                       (['p', 'p', 'm'], [I.IMAX, 0, I.IMIN + 1], 'both_pord'), (['i', 'm'], [None, 7], 'ordonly')]):
+                                       (['p', 'p', 'm'], [I.IMAX, 0, I.IMIN + 1], 'both_pord'), (['i', 'm'], [None, 7], 'ordonly'),
+                                       (['m', 'i', 'p'], [I.IMIN, None, 0], 'both_ord'), (['p', 'm'], [-3, I.IMIN], 'pord')]):
         def mk(modname, cfgid, sp, fl=fl, r=r, mode=mode, k=k):
             shape, ranks = p_c03.place(fl, r, k + 1)
             return p_c03.emit(modname, cfgid, shape, ranks, mode, sp=sp)
